@@ -243,3 +243,22 @@ def _load_slices():
 
 
 _load_slices()
+
+
+@region("beat.p_score.window_reaches_train_length")
+def beat_pscore_window_reaches_train_length(inp, what=""):
+    """p_score's correlation window (round(threshold * median reference interval), in 10 ms samples) is at least the
+    length of the impulse trains, so the slice start middle_lag - win_size is negative and Python wraps it around
+    (complement of the hypothesis `win < N` of C04.Beat.pscore_correlation_spec / pscore_correlation_partial)"""
+    import math
+    ref, est, thr = [F(v) for v in inp["ref"]], [F(v) for v in inp["est"]], F(inp["thr"])
+    if len(ref) < 2 or len(est) < 2:
+        return False
+    off = min(ref + est)
+    n = math.ceil(max(ref + est) - off) * 100 + 1
+    ri = sorted(set(math.ceil((v - off) * 100) for v in ref))
+    d = sorted(b - a for a, b in zip(ri, ri[1:]))
+    if not d:
+        return False
+    med = F(d[len(d) // 2]) if len(d) % 2 else F(d[len(d) // 2 - 1] + d[len(d) // 2]) / 2
+    return round(thr * med) >= n
